@@ -892,6 +892,12 @@ class C18(Prop):
             cr = x.find(b"\r")
             if (cr >= 0 and cr + 1 < len(x)) or (cr < 0 and len(x) >= 107):
                 frozen.append(x)
+        # the buffering bound (C18.complete_at_108): from 108 bytes on every verdict is final, also when
+        # the first CR is the last byte; at 107 bytes that one shape (first CR last) is still incomplete
+        # in model and implementation alike (compared, not required)
+        for n in (107, 108, 109, 130):
+            for head in (b"PROXY UNKNOWN ", b"PROXY TCP4 ", b"PROXY TCP6 ::1 ::2 1 ", b"PROXY ", b"", b"PROXY UNKNOWN \xc3\xa9"):
+                frozen.append(head + b"1" * (n - 1 - len(head)) + b"\r")
         ops = []
         for x in frozen:
             ops.append("v1b " + C.hexs(x))
@@ -912,12 +918,12 @@ class C18(Prop):
         for op, il in zip(ops, impl):
             x = op_bytes(op)
             cr = x.find(b"\r")
-            if not ((cr >= 0 and cr + 1 < len(x)) or (cr < 0 and len(x) >= 107)):
+            if not ((cr >= 0 and cr + 1 < len(x)) or (cr < 0 and len(x) >= 107) or len(x) >= 108):
                 continue
             p = self.project(op, il)
             for k in (p if isinstance(p, tuple) else (p,)):
                 if k != "complete":
-                    out.append(Violation("relation", op, il[:300], None, "the line is frozen (first CR + 1 byte seen, or 107 bytes without CR) but the result is %s" % k))
+                    out.append(Violation("relation", op, il[:300], None, "the line is frozen (first CR + 1 byte seen, or 107 bytes without CR, or 108 bytes supplied) but the result is %s" % k))
                     break
         return out
 
